@@ -116,6 +116,21 @@ def run(ctx):
             jobs.append((i, sc, base))
         with ThreadPoolExecutor(max_workers=12) as ex:
             results = list(ex.map(run_twice, jobs))
+    # supporting evidence for the PARTIAL part (uninitialised memory): memcheck on a few stochastic scenarios
+    vg_runs, vg_bad = 0, []
+    if ok and shutil.which("valgrind"):
+        for k in range(2 if not ctx.thorough else 10):
+            sc, meta = gen_scenario(r)
+            d = os.path.join(base, "vg%d" % k)
+            shutil.rmtree(d, ignore_errors=True)
+            symlib.write_case(d, sc)
+            rc, out = common.sh(["valgrind", "-q", "--error-exitcode=9", "--undef-value-errors=yes", common.sympler(), "in.xml"], cwd=d, timeout=1800)
+            vg_runs += 1
+            if rc == 9 or "uninitialised" in out or "Invalid read" in out or "Invalid write" in out:
+                vg_bad.append(dict(scenario=sc, ingredients=meta, report=[l for l in out.splitlines() if l.startswith("==")][:12]))
+            shutil.rmtree(d, ignore_errors=True)
+        ctx.oblige("valgrind memcheck on %d stochastic scenarios: no use of uninitialised values, no invalid read/write (supporting evidence for the part no model can exhibit)" % vg_runs,
+                   not vg_bad, str(vg_bad[:1])[:400])
     bad = [x for x in results if not x.get("same")]
     hist = {}
     for m in metas:
